@@ -111,7 +111,7 @@ struct LinkSetupFrame
         // decode each base-40 digit and map them to the appriate character.
         result.fill(0);
         size_t index = 0;
-        while (encoded)
+        while (encoded && index != result.size() - 1)
         {
             result[index++] = callsign_map[encoded % 40];
             encoded /= 40;
